@@ -2384,6 +2384,23 @@ bool olc_db<Key, Value>::iterator::try_seek(art_key_type search_key,
     const auto key_prefix_length{key_prefix.length()};  // length of that prefix
     const auto shared_length = key_prefix.get_shared_length(
         remaining_key.get_u64());  // #of prefix bytes matched.
+    if constexpr (std::is_same_v<Key, key_view>) {
+      if (remaining_key.size() <= shared_length) {
+        // A variable length search key ends at or inside the prefix of this
+        // node (the zero padding of get_u64() does not count as a match), so
+        // it is a proper prefix of every key below the node: it has no key
+        // byte left to compare or to choose a child with, and it is ordered
+        // before the whole subtree.  (An inconsistent optimistic read can
+        // look the same; the traversal below validates before it returns.)
+        //
+        // Note: parent_critical_section is unlocked along all paths by
+        // try_left_most_traversal
+        const auto ret = unlock_and_return(
+            node_critical_section,
+            try_left_most_traversal(node, parent_critical_section));
+        return fwd ? ret : (ret && try_prior());
+      }
+    }
     if (shared_length < key_prefix_length) {
       // We have visited an internal node whose prefix is longer than
       // the bytes in the key that we need to match.  To figure out
